@@ -1888,14 +1888,11 @@ class Stream(AbstractStream):
                         bad_index = other_chemicals.index(IDs)
                         other_index = [i for i in range(other_chemicals.size) if i != bad_index]
                     else:
-                        other_index = slice()
+                        other_index = list(range(other_chemicals.size))
                 else:
                     IDs = [i for i in IDs if i in other_chemicals]
                     bad_index = set(other_chemicals.indices(IDs))
-                    if bad_index:
-                        other_index = [i for i in range(other_chemicals.size) if i not in bad_index]
-                    else:
-                        other_index = slice()
+                    other_index = [i for i in range(other_chemicals.size) if i not in bad_index]
             else:
                 other_index = other_chemicals.get_index(IDs)
             if chemicals is other_chemicals:
